@@ -96,4 +96,21 @@ def allCells (n : Nat) : List HashParts :=
   (List.range 12).flatMap fun b => (List.range n).flatMap fun i => (List.range n).map fun j =>
     { d0h := b, i := i, j := j }
 
+/-! ## sanity of the specification on its own (tests by kernel evaluation, independent of the model)
+
+The identification `key` makes the `12 n²` diamonds a quadrangulation of a sphere: `12 n² + 2` distinct vertices (Euler:
+`V − E + F = (12n² + 2) − 24n² + 12n² = 2`), each belonging to 4 cells, except 8 vertices that belong to 3 cells (the N
+and S corners of the four equatorial base cells). -/
+
+/-- number of cells having the key `k` among their vertices -/
+def valence (n : Nat) (k : Int × Int) : Nat := ((allCells n).filter fun p => (keys n p).contains k).length
+
+def sphereLike (n : Nat) : Bool :=
+  let ks := ((allCells n).flatMap (keys n)).eraseDups
+  ks.length == 12 * n * n + 2 && (ks.filter fun k => valence n k == 3).length == 8 &&
+  ks.all fun k => valence n k == 4 || valence n k == 3
+
+/-- **test** (`n = 1, 2`; `#eval` confirms `n ≤ 8`) -/
+example : sphereLike 1 = true ∧ sphereLike 2 = true := by decide +kernel
+
 end Hpx.TopoSpec
